@@ -99,11 +99,31 @@ def rule_r1(ctx) -> RuleResult:
                            "starting with * # : ; {| is glued to the preceding text", c.lineno))
     cp = ctx.fn("parserfns.call_parser_function")
     rets = [n for n in walk_no_nested(cp) if isinstance(n, ast.Return) and n.value is not None]
-    calls_fn = [r for r in rets if any(isinstance(c, ast.Call) and unparse(c.func) == "fn" for c in ast.walk(r.value))]
+    def inline(e: ast.AST, line: int, depth: int = 0) -> ast.AST:
+        """returned expression with names replaced by their nearest preceding assignment"""
+        import copy
+
+        class T(ast.NodeTransformer):
+            def visit_Call(self, node):
+                node.args = [self.visit(a) for a in node.args]
+                if not isinstance(node.func, ast.Name):
+                    node.func = self.visit(node.func)
+                return node
+
+            def visit_Name(self, node):
+                if isinstance(node.ctx, ast.Load) and depth < 3:
+                    v = X.resolve_name(cp.body, node.id, line)
+                    if v is not None:
+                        return inline(v, v.lineno, depth + 1)
+                return node
+
+        return T().visit(copy.deepcopy(e))
+
+    inl = [(r, inline(r.value, r.lineno)) for r in rets]
+    calls_fn = [(r, v) for r, v in inl if any(isinstance(c, ast.Call) and unparse(c.func) == "fn" for c in ast.walk(v))]
     if not calls_fn:
         raise AnalysisError("call_parser_function: return of fn(...) not found")
-    for r in calls_fn:
-        v = r.value
+    for r, v in calls_fn:
         if isinstance(v, ast.Call) and unparse(v.func) == "add_newline_to_expansion":
             rr.ok("parserfns.call_parser_function", unparse(r)[:80], {"site": "parser function result"})
         else:
@@ -311,6 +331,16 @@ def rule_r4(ctx) -> RuleResult:
         return [a for a in assigns if unparse(a.value.func).endswith(fn_suffix)]
 
     pp = [a for a in find("preprocess_text") if unparse(a.targets[0]) == "body"]
+    if not pp:
+        # the step may sit in a helper method whose every return is preprocess_text(...)
+        for a in assigns:
+            f = a.value.func
+            if unparse(a.targets[0]) == "body" and isinstance(f, ast.Attribute) and isinstance(f.value, ast.Name) and f.value.id == "self" \
+                    and ctx.index.has_func("core.Wtp." + f.attr):
+                h = ctx.index.func("core.Wtp." + f.attr)
+                rets = [r for r in walk_no_nested(h) if isinstance(r, ast.Return)]
+                if rets and all(isinstance(r.value, ast.Call) and unparse(r.value.func).endswith("preprocess_text") for r in rets):
+                    pp.append(a)
     enc = find("._encode")
     ea = [a for a in find("expand_args") if len(a.value.args) == 2]
     er = [a for a in assigns if unparse(a.value.func) == "expand_recurse" and unparse(a.targets[0]) == "t"]
@@ -318,8 +348,23 @@ def rule_r4(ctx) -> RuleResult:
         raise AnalysisError("template body pipeline: steps not found (preprocess {}, encode {}, expand_args {}, expand_recurse {})".format(
             len(pp), len(enc), len(ea), len(er)))
     pp, enc, ea, er = pp[0], enc[0], ea[0], er[0]
+    def from_page_body(e: ast.AST, line: int, hops: int = 0) -> bool:
+        """the expression is the stored body of the resolved template page (optionally with the list-marker newline prefix)"""
+        if unparse(e) == "template_page.body":
+            return True
+        if hops > 5:
+            return False
+        if isinstance(e, ast.Name):
+            v = X.resolve_name(tb, e.id, line)
+            return v is not None and from_page_body(v, v.lineno, hops + 1)
+        if isinstance(e, ast.BinOp) and isinstance(e.op, ast.Add) and isinstance(e.left, ast.Constant) and e.left.value == "\n":
+            return from_page_body(e.right, line, hops + 1)
+        if isinstance(e, ast.Call) and unparse(e.func) == "add_newline_to_expansion" and len(e.args) == 1:
+            return from_page_body(e.args[0], line, hops + 1)
+        return False
+
     chain = [
-        (pp, "body", unparse(pp.value.args[0]) == "body"),
+        (pp, "body", bool(pp.value.args) and from_page_body(pp.value.args[0], pp.lineno)),
         (enc, unparse(enc.targets[0]), unparse(enc.value.args[0]) == "body"),
         (ea, unparse(ea.targets[0]), unparse(ea.value.args[0]) == unparse(enc.targets[0]) and unparse(ea.value.args[1]) == "ht"),
         (er, "t", unparse(er.value.args[0]) == unparse(ea.targets[0])),
@@ -409,5 +454,72 @@ def rule_r6(ctx) -> RuleResult:
     return rr
 
 
+def rule_r7(ctx) -> RuleResult:
+    """#switch fall-through: a bare case that matched selects the next `k=v` result no
+    matter how many further bare cases follow.  The flags that carry this through the
+    argument loop (initialised False before the loop) are latches: inside the loop they
+    are only ever set to True, or-ed with themselves, or cleared under a test of the flag
+    itself (consumption)."""
+    rr = RuleResult("C04.R7", "#switch fall-through flags are latches inside the argument loop", min_instances=3)
+    dotted = "parserfns.switch_fn"
+    fn = ctx.fn(dotted)
+    loops = [n for n in fn.body if isinstance(n, ast.For)]
+    if len(loops) != 1:
+        raise AnalysisError("switch_fn: argument loop not found")
+    lp = loops[0]
+    flags = []
+    for st in fn.body:
+        if st is lp:
+            break
+        if isinstance(st, ast.Assign) and len(st.targets) == 1 and isinstance(st.targets[0], ast.Name) \
+                and isinstance(st.value, ast.Constant) and st.value.value is False:
+            flags.append(st.targets[0].id)
+    used = {n.id for n in ast.walk(lp) if isinstance(n, ast.Name) and isinstance(n.ctx, ast.Load)}
+    flags = [f for f in flags if f in used]
+    if not flags:
+        raise AnalysisError("switch_fn: no fall-through flag found (a False-initialised name read in the argument loop)")
+
+    def visit(stmts, guards):
+        for st in stmts:
+            if isinstance(st, ast.If):
+                names = {n.id for n in ast.walk(st.test) if isinstance(n, ast.Name)}
+                visit(st.body, guards | names)
+                visit(st.orelse, guards | names)
+                continue
+            if isinstance(st, (ast.For, ast.While, ast.With, ast.Try)):
+                for fld in ("body", "orelse", "finalbody"):
+                    visit(getattr(st, fld, []) or [], guards)
+                for h in getattr(st, "handlers", []) or []:
+                    visit(h.body, guards)
+                continue
+            tgt = val = None
+            if isinstance(st, ast.Assign) and len(st.targets) == 1 and isinstance(st.targets[0], ast.Name):
+                tgt, val = st.targets[0].id, st.value
+            elif isinstance(st, ast.AnnAssign) and isinstance(st.target, ast.Name) and st.value is not None:
+                tgt, val = st.target.id, st.value
+            elif isinstance(st, ast.AugAssign) and isinstance(st.target, ast.Name):
+                tgt, val = st.target.id, st
+            if tgt not in flags:
+                continue
+            ok = False
+            if isinstance(val, ast.Constant) and val.value is True:
+                ok = True
+            elif isinstance(val, ast.Constant) and val.value is False and tgt in guards:
+                ok = True
+            elif isinstance(val, ast.BoolOp) and isinstance(val.op, ast.Or) and any(isinstance(x, ast.Name) and x.id == tgt for x in val.values):
+                ok = True
+            elif isinstance(val, ast.AugAssign) and isinstance(val.op, ast.BitOr):
+                ok = True
+            if ok:
+                rr.ok(dotted, unparse(st), {"flag": tgt, "assignment": unparse(st)})
+            else:
+                rr.bad(Finding("C04.R7", PFN, dotted, unparse(st),
+                               "the fall-through flag `{}` is overwritten inside the argument loop: a later bare case resets an earlier match, "
+                               "so {{{{#switch:a|a|b|c=X}}}} no longer selects X".format(tgt), st.lineno))
+
+    visit(lp.body, set())
+    return rr
+
+
 def run(ctx) -> list:
-    return [rule_r1(ctx), rule_r2(ctx), rule_r3(ctx), rule_r4(ctx), rule_r5(ctx), rule_r6(ctx)]
+    return [rule_r1(ctx), rule_r2(ctx), rule_r3(ctx), rule_r4(ctx), rule_r5(ctx), rule_r6(ctx), rule_r7(ctx)]
